@@ -1,6 +1,6 @@
 (* C13: populate_idle_qubits adds one identity gate to each idle qubit and nothing else. *)
 From Coq Require Import ZArith List Bool String.
-From Verif Require Import BGate PyVal Ast State Unroll Corr Spec Transforms TransformProofs ModuleSpec ModuleProofs.
+From Verif Require Import BGate PyVal Ast State Unroll Corr Spec Transforms TransformProofs ModuleSpec ModuleProofs FixProofs ValidProofs.
 Import ListNotations.
 Open Scope Z_scope.
 
@@ -39,3 +39,19 @@ Example C13_example :
   = [SQubitDecl "q" (Some (ELit (VInt 3))); SIf (EId "c") [SGate [] "x" [] [q 1]] [];
      SGate [] "id" [] [q 0]; SGate [] "id" [] [q 2]].
 Proof. vm_compute. reflexivity. Qed.
+
+(* ---- the visitor model and the transformed program (Module/ValidProofs.v + Lang/FixProofs.v) ----
+   What populate_idle_qubits() yields from a well-formed flat program (what unroll() leaves, Props/C03.v) is a well-formed flat program
+   again; hence, for every such program of any size: validate() accepts the result, unroll() accepts it and emits it
+   UNCHANGED (a later unroll()/validate() cannot undo or duplicate the transformation), and num_qubits is the total of
+   the program's qubit registers. *)
+Theorem C13_result_is_a_valid_program_the_visitor_leaves_as_it_is fuel p :
+  wf_flat env0 p = true -> (ldepth (populate p) < fuel)%nat ->
+  (exists o, run_visit false true [] fuel (populate p) = Ok o /\ num_qubits (o_state o) = total_qubits p) /\
+  (exists o, run_visit false false [] fuel (populate p) = Ok o /\ o_stmts o = populate p /\ num_qubits (o_state o) = total_qubits p).
+Proof. exact (populated_program_is_valid_and_stable fuel p). Qed.
+Print Assumptions C13_result_is_a_valid_program_the_visitor_leaves_as_it_is.
+
+Theorem C13_keeps_wellformedness p : wf_flat env0 p = true -> wf_flat env0 (populate p) = true.
+Proof. exact (populate_keeps_wellformed p). Qed.
+Print Assumptions C13_keeps_wellformedness.
